@@ -617,6 +617,107 @@ def rule_y13(ctx, funcs: List[Func]) -> None:
     ctx.require(n >= 1, "no method of the standardiser both queries functional groups and returns a SMILES")
 
 
+def rule_y14(ctx, funcs: List[Func]) -> None:
+    """Both rewrites move a hydrogen away from an oxygen (enol O-H -> C-H; gem-diol O-H -> water).  The oxygen that
+    gives it must have one: for an oxygen without hydrogen (radical `[O]`, oxenium `[O+]`) the receiving atom still gains
+    one and the molecule ends one hydrogen richer.  Each rewrite function therefore returns its input when the donor's
+    `GetTotalNumHs()` is 0 - decided here by evaluating the function's refusal tests for the counts 0..3."""
+    from ..constfold import Folder, Unfoldable
+
+    ctx.rule("C20-Y14", "the oxygen that gives up a hydrogen is tested to carry one (count 0 refuses the rewrite)", 2)
+    for f in funcs:
+        if not any(isinstance(c, ast.Call) and isinstance(c.func, ast.Attribute) and c.func.attr == "AddBond" for c in own_nodes(f.node)):
+            continue
+        cfg = CFG(f.node)
+        # donors: the receiver of SetNumExplicitHs(0), or - where the hydrogens are moved by delta - the atom with delta -1
+        donors = []
+        for c in own_nodes(f.node):
+            if isinstance(c, ast.Call) and isinstance(c.func, ast.Attribute) and c.func.attr == "SetNumExplicitHs" and c.args and isinstance(c.args[0], ast.Constant) and c.args[0].value == 0:
+                donors.append((unparse(c.func.value), c))
+        for t in own_nodes(f.node):
+            if isinstance(t, ast.Tuple) and len(t.elts) == 2 and isinstance(t.elts[1], ast.UnaryOp) and isinstance(t.elts[1].op, ast.USub) and isinstance(t.elts[0], ast.Name):
+                donors.append(("GetAtomWithIdx(%s)" % t.elts[0].id, t))
+        for recv, site in donors:
+            allowed = {0, 1, 2, 3}
+            nid = cfg.node_of(site)
+            for cond, pol in cfg.guards(nid) if nid is not None else []:
+                hcalls = [c for c in ast.walk(cond) if isinstance(c, ast.Call) and isinstance(c.func, ast.Attribute) and c.func.attr == "GetTotalNumHs"]
+                if not hcalls:
+                    continue
+                rrecv = unparse(hcalls[0].func.value)
+                same = rrecv == recv or recv in rrecv or rrecv in recv
+                if not same and recv.startswith("GetAtomWithIdx("):
+                    idx = recv[len("GetAtomWithIdx(") : -1]
+                    same = idx in rrecv or any(idx in unparse(v) for _s, v, _i in assignments_to(f, rrecv))
+                if not same:
+                    continue
+                keep = set()
+                for h in sorted(allowed):
+                    try:
+                        if bool(Folder(f.module, None).fold(clone_test(cond, hcalls, h))) == bool(pol):
+                            keep.add(h)
+                    except Exception:
+                        keep.add(h)
+                allowed = keep
+            ok = 0 not in allowed
+            ctx.instance("C20-Y14", "%s: hydrogen donor %s reaches the rewrite with hydrogen counts %s" % (f.name, recv, sorted(allowed)), f.loc(site), ok=ok)
+            if not ok:
+                ctx.finding("C20-Y14", "%s.%s:donor-without-hydrogen:%s" % (f.qualname.split(".")[-2], f.name, recv), f.loc(site), "%s moves a hydrogen away from %s without refusing the rewrite when that atom has none (counts that reach the rewrite: %s): for a radical or cationic oxygen ([O]C=C, C=C[O+]) the receiving atom gains a hydrogen the molecule never had" % (f.name, recv, sorted(allowed)))
+
+
+def rule_y15(ctx, funcs: List[Func]) -> None:
+    """A recognised group does not always have three atoms (an explicit isotope hydrogen `[2H]` is an atom of the
+    graph and is listed with the group).  Unpacking a sequence derived from the group's indices into a fixed number of
+    names raises ValueError for such a group unless its length was tested or the unpacking sits in a handler - and an
+    exception out of a rewrite function is an error in place of a SMILES."""
+    ctx.rule("C20-Y15", "a sequence derived from the group indices is not unpacked into a fixed number of names without a length test", 0)
+    n = 0
+    for f in funcs:
+        params = set(f.params)
+        idx_params = {p_ for p_ in params if "ind" in p_.lower() or "idx" in p_.lower()}
+        if not idx_params:
+            continue
+        cfg = None
+        for a in [x for x in own_nodes(f.node) if isinstance(x, ast.Assign) and len(x.targets) == 1 and isinstance(x.targets[0], (ast.Tuple, ast.List))]:
+            v = a.value
+            derived = isinstance(v, (ast.ListComp, ast.GeneratorExp)) or (isinstance(v, ast.Call) and isinstance(v.func, ast.Name) and v.func.id in ("sorted", "list", "tuple", "filter", "reversed"))
+            if not derived or not any(isinstance(x, ast.Name) and x.id in idx_params for x in ast.walk(v)):
+                continue
+            n += 1
+            cfg = cfg or CFG(f.node)
+            nid = cfg.node_of(a)
+            guarded = any("len(" in unparse(c_) and any(p_ in unparse(c_) for p_ in idx_params) for c_, _pol in (cfg.guards(nid) if nid is not None else []))
+            cur = getattr(a, "_parent", None)
+            while cur is not None and cur is not f.node:
+                if isinstance(cur, ast.Try) and any(any(y is a for y in ast.walk(b)) for b in cur.body):
+                    guarded = True
+                cur = getattr(cur, "_parent", None)
+            ctx.instance("C20-Y15", "%s: %s (length tested / handled: %s)" % (f.name, unparse(a)[:60], guarded), f.loc(a), ok=guarded)
+            if not guarded:
+                ctx.finding("C20-Y15", "%s.%s:fixed-arity-unpacking" % (f.qualname.split(".")[-2], f.name), f.loc(a), "%s unpacks %s into %d names without testing how many atoms the group has: a group with an extra atom (an explicit isotope hydrogen) raises ValueError out of the standardiser" % (f.name, unparse(v)[:50], len(a.targets[0].elts)))
+    if n == 0:
+        ctx.note("C20-Y15: no fixed-arity unpacking of the group indices on this tree")
+
+
+def clone_test(test, hcalls, h):
+    """copy of `test` with every GetTotalNumHs() call replaced by the constant h"""
+    from ..model import clone
+
+    t = clone(test)
+    targets = [unparse(c) for c in hcalls]
+
+    class R(ast.NodeTransformer):
+        def visit_Call(self, node):
+            if unparse(node) in targets:
+                return ast.copy_location(ast.Constant(value=h), node)
+            self.generic_visit(node)
+            return node
+
+    t = R().visit(t)
+    ast.fix_missing_locations(t)
+    return t
+
+
 def check(ctx) -> None:
     prog = ctx.prog
     cls = prog.cls(CLS)
@@ -635,8 +736,9 @@ def check(ctx) -> None:
         rule_y8(ctx, funcs)
         rule_y9(ctx, funcs)
         rule_y10(ctx, funcs)
-        rule_y11(ctx, funcs)
         rule_y12(ctx, funcs)
+        rule_y14(ctx, funcs)
+        rule_y15(ctx, funcs)
     else:
         rule_y13(ctx, funcs)
         rule_y1(ctx, funcs)
@@ -649,5 +751,6 @@ def check(ctx) -> None:
         rule_y8(ctx, funcs)
         rule_y9(ctx, funcs)
         rule_y10(ctx, funcs)
-        rule_y11(ctx, funcs)
         rule_y12(ctx, funcs)
+        rule_y14(ctx, funcs)
+        rule_y15(ctx, funcs)
